@@ -351,8 +351,15 @@ pub fn run(ctx: &mut Ctx) {
             let mut ok = true;
             let wd = dyadic_weights(rng, nv, false);
             ok &= iw.set_duration(&wd).is_ok();
+            // (one case in four: every stream's parameter weights are the same vertex while the
+            // duration and GV weights stay inside the simplex)
+            let vertex_k = if idx % 4 == 1 { Some(rng.below(nv)) } else { None };
             for i in 0..nstream {
-                let w = if i == 1 && nv == 2 && idx % 2 == 0 {
+                let w = if let Some(k) = vertex_k {
+                    let mut w = vec![0.0; nv];
+                    w[k] = 1.0;
+                    w
+                } else if i == 1 && nv == 2 && idx % 2 == 0 {
                     // the band in which two voices that disagree on voicing give a voiced state
                     // with a low mean
                     let a = (rng.range(29, 45) as f64) / 64.0;
@@ -375,6 +382,19 @@ pub fn run(ctx: &mut Ctx) {
             ctx.violation("synthesize-err", J::from(set.descr.clone()));
             return;
         };
+        // the durations the engine chose are those of the duration Gaussians blended with the
+        // duration weights
+        {
+            let models = Models::new(&labels, &multi.voices, multi.condition.get_interporation_weight());
+            let d = jbonsai::duration::DurationEstimator::new(models.duration(), models.nstate()).create(multi.condition.get_speed());
+            if d != run.durations {
+                ctx.violation(
+                    "engine-durations-are-not-those-of-the-weighted-duration-model",
+                    J::obj().set("set", set.descr.clone()).set("engine", J::from(run.durations.clone())).set("weighted_model", J::from(d)),
+                );
+                return;
+            }
+        }
         let want = crate::synth::trajectories_from_public_api(&multi, &labels, &run.durations);
         let got = [&run.spectrum, &run.lf0, &run.lpf];
         for k in 0..nstream {
